@@ -939,6 +939,77 @@ Section T.
       apply (a_above _ HA x); [pose proof (a_cap _ HA); lia|exact Ho].
   Qed.
 
+
+  (* ---------- a collection never runs out of fuel (fuel >= capacity) and never reports Full ---------- *)
+  Lemma skip_dead_total : forall fuel t index l, Chain t index l -> (length l < fuel)%nat -> exists t' cur, skip_dead fuel t index = Ok (t', cur).
+  Proof.
+    induction fuel as [|fuel IH]; intros t index l Hc Hl; [lia|]. cbn [skip_dead].
+    destruct (N.eqb_spec index 0); [eauto|]. destruct (alive index); [eauto|].
+    inversion Hc as [|? l' _ Hc' E1]; [congruence|]. subst l.
+    eapply IH; [eapply Chain_dropped; [apply drop_spec|exact Hc']|cbn in Hl; lia].
+  Qed.
+  Lemma relink_total : forall fuel t prev lp, Chain t prev lp -> NoDup lp ->
+    (lp = [] \/ exists l, lp = prev :: l /\ alive prev = true) -> (length lp < fuel)%nat -> exists t', relink fuel t prev = Ok t'.
+  Proof.
+    induction fuel as [|fuel IH]; intros t prev lp Hc Hnd Hshape Hl; [lia|]. cbn [relink].
+    destruct (N.eqb_spec prev 0) as [->|Hnz]; [eauto|].
+    destruct Hshape as [->|(l & -> & Hal)]; [inversion Hc; congruence|].
+    inversion Hc as [|? ? _ Hc' E1]; subst. fold (nxt t prev) in Hc'. cbn [length] in Hl.
+    destruct (skip_dead_total fuel t (nxt t prev) l Hc' ltac:(lia)) as (t1 & cur & Hs). rewrite Hs.
+    destruct (skip_dead_ok _ _ _ _ _ _ Hc' Hs) as (D & rest & -> & HD & Hdr & Hch1 & Hrest).
+    set (t2 := if nxt t1 prev =? cur then t1 else set_next t1 prev cur) in *.
+    apply NoDup_cons_iff in Hnd as [Hpn Hnd].
+    assert (No : forall j, j <> prev -> nxt t2 j = nxt t1 j).
+    { subst t2. destruct (N.eqb_spec (nxt t1 prev) cur) as [E|E]; [auto|]. intros j Hj. apply set_next_nxt_other. exact Hj. }
+    assert (Hpr : ~ In prev rest) by (intro; apply Hpn; apply in_or_app; right; assumption).
+    assert (Hch2 : Chain t2 cur rest).
+    { eapply Chain_frame; [exact Hch1|]. intros j Hin. apply No. intros ->. contradiction. }
+    apply (IH t2 cur rest Hch2).
+    - apply NoDup_app_r in Hnd; exact Hnd.
+    - destruct Hrest as [->|(r' & -> & Ha)]; [left; reflexivity|right; eauto].
+    - rewrite app_length in Hl. lia.
+  Qed.
+  Lemma sweep_bucket_total fuel t b l : Chain t (tget (buckets t) b) l -> NoDup l -> (length l < fuel)%nat ->
+    exists t', sweep_bucket fuel t b = Ok t'.
+  Proof.
+    intros Hc Hnd Hl. unfold sweep_bucket. destruct (N.eqb_spec (tget (buckets t) b) 0); [eauto|].
+    destruct (skip_dead_total fuel t _ l Hc Hl) as (t1 & head & Hs). rewrite Hs.
+    destruct (skip_dead_ok _ _ _ _ _ _ Hc Hs) as (D & rest & -> & HD & Hdr & Hch1 & Hrest).
+    apply (relink_total fuel (set_bucket t1 b head) head rest).
+    - eapply Chain_frame; [exact Hch1|reflexivity].
+    - eapply NoDup_app_r; eauto.
+    - destruct Hrest as [->|(r' & -> & Ha)]; [left; reflexivity|right; eauto].
+    - rewrite app_length in Hl. lia.
+  Qed.
+  Lemma chain_short t b l : AInv t -> CInv t -> b < nb t -> Chain t (tget (buckets t) b) l -> NoDup l ->
+    (forall i, In i l -> chained t i) -> (length l < N.to_nat (cap t))%nat.
+  Proof.
+    intros HA HC Hb Hch Hnd Hin.
+    assert (H0 : ~ In 0 l) by (intro H; destruct (Hin 0 H) as (_ & H0 & _); congruence).
+    assert (Hb' : (length (0%N :: l) <= N.to_nat (cap t))%nat).
+    { apply nodup_bound; [constructor; assumption|]. intros x [<-|Hx]; [pose proof (a_cap _ HA); lia|].
+      destruct (Hin x Hx) as (Ho & _). destruct (N.lt_ge_cases x (cap t)) as [|Hge]; [assumption|]. exfalso.
+      apply (a_above _ HA x); [pose proof (a_cap _ HA); lia|exact Ho]. }
+    cbn [length] in Hb'. lia.
+  Qed.
+  Lemma sweep_all_total : forall bs fuel t0 t B, AInv t0 -> CInv t0 -> G t0 t B -> NoDup (bs ++ B) -> (forall b, In b bs -> b < nb t0) ->
+    (N.to_nat (cap t0) <= fuel)%nat -> exists t', sweep_all fuel t bs = Ok t'.
+  Proof.
+    induction bs as [|b r IH]; intros fuel t0 t B HA0 HC HG Hnd Hlt Hf; cbn [sweep_all]; [eauto|].
+    assert (Hb : b < nb t0) by (apply Hlt; left; reflexivity).
+    cbn [app] in Hnd. inversion Hnd as [|? ? Hni Hnd']; subst.
+    assert (HnB : ~ In b B) by (intro; apply Hni; apply in_or_app; right; assumption).
+    destruct (c_chain _ HC b Hb) as (l0 & Hl0 & Hnd0 & Hm0).
+    pose proof HG as (_ & _ & _ & _ & _ & Hch & _).
+    pose proof (Hch b l0 Hb Hl0) as Hcb. destruct (in_dec N.eq_dec b B) as [?|_]; [contradiction|].
+    pose proof (chain_short t0 b l0 HA0 HC Hb Hl0 Hnd0 (fun i Hi => proj1 (Hm0 i Hi))) as Hshort.
+    destruct (sweep_bucket_total fuel t b l0 Hcb Hnd0 ltac:(lia)) as (t1 & Hs). rewrite Hs.
+    assert (HG1 : G t0 t1 (b :: B)) by (eapply G_step; eauto).
+    apply (IH fuel t0 t1 (b :: B)); auto.
+    - apply NoDup_snoc_mid. exact Hnd.
+    - intros; apply Hlt; right; assumption.
+  Qed.
+
 End T.
 
 Arguments data {V}. Arguments buckets {V}. Arguments nb {V}. Arguments cap {V}.
@@ -1023,6 +1094,16 @@ Section THist.
     assert (HG : G V hash pin alive t t' (rev (bucket_range t) ++ [])).
     { eapply sweep_all_G; eauto using G_init. - now rewrite app_nil_r. - intros b Hb; now apply Hbl. }
     apply (G_final V hash pin alive t t' _ HA HC HG). intros b Hb. rewrite app_nil_r, <- in_rev. now apply Hbl.
+  Qed.
+
+  (* a collection always completes once fuel >= capacity: never out of fuel, never "Full" *)
+  Theorem sweep_total fuel t alive : AInv t -> CInv V hash pin t -> (N.to_nat (cap t) <= fuel)%nat ->
+    exists t', sweep_all V alive fuel t (bucket_range t) = Ok t'.
+  Proof.
+    intros HA HC Hf. destruct (bucket_range_ok t) as [Hnd Hbl].
+    apply (sweep_all_total V hash pin alive (bucket_range t) fuel t t [] HA HC (G_init V hash pin alive t HA)); auto.
+    - now rewrite app_nil_r.
+    - intros b Hb; now apply Hbl.
   Qed.
 
   (* ---------- C06 over whole histories: the high-water mark is the peak live count ---------- *)
